@@ -137,6 +137,11 @@ pub fn check_history<S: Shape>(spec: &AnimSpec, ops: &[Op], acc: &mut Acc, mode:
         apply_real::<S>(&mut real, *op);
         model.apply(*op);
         acc.eval();
+        if let Op::Set(_) = op {
+            acc.count(&format!("set_state_{}", model.last_transition), 1);
+        } else {
+            acc.count("advance", 1);
+        }
         let after = real.current_values();
         match mode {
             Mode::C04 => {
